@@ -42,7 +42,7 @@ def gen_plan(seed, tier="quick"):
     plan = {"engine": "drvsim", "property": PROP, "driver": driver, "seed": seed,
             "knobs": plans.gen_knobs(r, driver, allow_batch=True),
             "callers": plans.gen_callers(r, driver, ncallers, 3 if tier == "quick" else 4,
-                                         cancel_sends=True, parallel=0.06, unsupported=0.04),
+                                         cancel_sends=True, parallel=0.06, unsupported=0.04, connect_again=0.04),
             "deadline_s": 600}
     return plan
 
